@@ -122,21 +122,24 @@ type Result struct {
 // global simulation state (one run per process)
 
 type task struct {
-	id       int
-	wake     chan struct{}
-	done     bool
-	blocked  waitable
-	stallTo  uint64 // not runnable while gstep < stallTo
-	vc       vclock
-	local    uint64
-	held     []*Mutex
-	heldRW   []*RWMutex
-	prio     int
-	inCall   bool // between BeginCall/EndCall
-	fn       func()
-	lastSite int32
-	spawned  bool // started by the library through a go statement
-	streak   int  // consecutive synchronisation points without any memory access in between (spin detection)
+	id         int
+	wake       chan struct{}
+	done       bool
+	blocked    waitable
+	stallTo    uint64 // not runnable while gstep < stallTo
+	vc         vclock
+	local      uint64
+	held       []*Mutex
+	heldRW     []*RWMutex
+	prio       int
+	inCall     bool // between BeginCall/EndCall
+	fn         func()
+	lastSite   int32
+	callSteps  uint64
+	callBudget uint64
+	callLabel  string
+	spawned    bool // started by the library through a go statement
+	streak     int  // consecutive synchronisation points without any memory access in between (spin detection)
 }
 
 type waitable interface{ canProceed(t *task) bool }
@@ -296,7 +299,7 @@ func Run(c Config, fns []func(), abort func(*Result)) *Result {
 	}
 	cfg = c
 	if cfg.StepCap == 0 {
-		cfg.StepCap = 80_000_000
+		cfg.StepCap = 600_000_000
 	}
 	rng = newXo(cfg.Seed)
 	locs = make(map[unsafe.Pointer]*loc, 1<<14)
@@ -699,6 +702,14 @@ func point(t *task, site int32, cls Class, elig bool) {
 	if gstep > cfg.StepCap {
 		abortRun(nil, "step cap exceeded")
 	}
+	if t.inCall && t.callBudget > 0 {
+		t.callSteps++
+		if t.callSteps > t.callBudget {
+			abortRun(&Violation{Class: "NO_PROGRESS", Key: "call did not return: " + strings.SplitN(t.callLabel, "(", 2)[0],
+				Detail: map[string]string{"call": t.callLabel, "steps_in_this_call": fmt.Sprint(t.callSteps),
+					"note": "the same call, made first in a fresh process, returned after a small fraction of these steps; here the task kept running (it was not waiting for anybody) and did not return"}}, "")
+		}
+	}
 	if cls == ClsSync {
 		t.streak++
 		if t.streak > 100 && !cfg.Replay {
@@ -818,6 +829,16 @@ func OpBoundary() {
 func BeginCall() {
 	if active && cur != nil {
 		cur.inCall = true
+		cur.callSteps = 0
+		cur.callBudget = 0
+	}
+}
+
+// CallBudget sets the step budget of the call the running task is about to make (0 = none) and a label for reports.
+func CallBudget(steps uint64, label string) {
+	if active && cur != nil {
+		cur.callBudget = steps
+		cur.callLabel = label
 	}
 }
 
@@ -1010,6 +1031,8 @@ func race(l *loc, t *task, site int32, write bool, other int32, otherWrite bool,
 func R[T any](p *T, site int32) *T {
 	if active {
 		access(unsafe.Pointer(p), site, false)
+	} else if Solo {
+		SoloSteps++
 	}
 	return p
 }
@@ -1018,9 +1041,15 @@ func R[T any](p *T, site int32) *T {
 func W[T any](p *T, site int32) *T {
 	if active {
 		access(unsafe.Pointer(p), site, true)
+	} else if Solo {
+		SoloSteps++
 	}
 	return p
 }
+
+// SoloSteps counts the instrumented field/variable accesses of a single-caller (oracle) process: the amount of
+// work the same call needs in a fresh process, the yardstick for the per-call step budget in a simulated run.
+var SoloSteps uint64
 
 func mapAddr[M ~map[K]V, K comparable, V any](m M) unsafe.Pointer {
 	return *(*unsafe.Pointer)(unsafe.Pointer(&m))
